@@ -28,8 +28,9 @@ def _load(pid):
         out = []
     # independently seeded changes (section 12 of DESIGN.md): every confirmed breaking seed of this property must be reported,
     # every behaviour-preserving twin must leave the property's check silent
-    for x in ("A", "B", "C", "D", "E", "F"):
-        d = os.path.join(SEEDED, "%s-%s" % (pid.upper(), x), "patch.diff")
+    import glob as _glob
+    for d in sorted(_glob.glob(os.path.join(SEEDED, "%s-[A-Z]" % pid.upper(), "patch.diff"))):
+        x = os.path.basename(os.path.dirname(d))[-1]
         if os.path.isfile(d):
             ent = {"id": "seed-%s-%s" % (pid.upper(), x), "rule": None, "diff": d, "tier": _seed_tier(os.path.dirname(d)), "what": "independently seeded breaking change (seeded/%s-%s)" % (pid.upper(), x)}
             if _expected_undetected(os.path.dirname(d)):
